@@ -876,6 +876,8 @@ func (r Stack) Remove(idx int) (slice any, ok bool) {
 remove is a private method called by [Stack.Remove].
 */
 func (r *stack) remove(idx int) (slice any, ok bool) {
+	r.lock()
+	defer r.unlock()
 
 	var found bool
 	var index int
@@ -890,9 +892,6 @@ func (r *stack) remove(idx int) (slice any, ok bool) {
 
 		var R stack = make(stack, 0)
 		R = append(R, cfg)
-
-		r.lock()
-		defer r.unlock()
 
 		// Gather what we want to keep.
 		for i := 1; i < r.len(); i++ {
